@@ -242,7 +242,7 @@ def rel(path):
 IR_FLAGS = ["-O2", "-DNDEBUG", "-DEIGEN_DONT_VECTORIZE", "-fno-vectorize", "-fno-slp-vectorize",
             "-mllvm", "-inline-threshold=1000000", "-funroll-loops", "-mllvm", "-unroll-threshold=1000000",
             "-mllvm", "-unroll-full-max-count=4096", "-mllvm", "-unroll-max-iteration-count-to-analyze=4096",
-            "-fno-discard-value-names", "-S", "-emit-llvm"]
+            "-S", "-emit-llvm"]
 
 
 def compile_ir(src_path, out_path, fastmath=False, exceptions=False, vectorize=False, extra=()):
